@@ -1583,7 +1583,8 @@ func (e *Entry) dup() *Entry {
 
 	ne.Extra = make(map[string][]interface{})
 	for k, v := range e.Extra {
-		ne.Extra[k] = v
+		// merge appends to these slices, so the copy needs its own.
+		ne.Extra[k] = append([]interface{}(nil), v...)
 	}
 
 	if e.ListAttr != nil {
